@@ -306,7 +306,8 @@ extern "C" void c20_run_op(int op, int salt, const C20Shared *sh, char *out, siz
     case 39: {
         std::wostringstream wo;
         wo << L << S;
-        ST::writef(wo, "{}|{>8}|{}", salt, "p\xC3\xA9", 1.5 * (salt + 1));
+        // pad runs with a pad character of this thread's own
+        ST::writef(wo, salt == 0 ? "{}|{>8}|{}|{_*12}|{<_-9}" : salt == 1 ? "{}|{>8}|{}|{_#12}|{<_+9}" : "{}|{>8}|{}|{_012}|{<_=9}", salt, "p\xC3\xA9", 1.5 * (salt + 1), 42 + salt, "ab");
         std::wstring w = wo.str();
         d.raw(w.data(), w.size() * sizeof(wchar_t));
         std::wistringstream wi(std::wstring(L"w\u00eft-token") + (wchar_t)(L'0' + salt) + L" rest");
@@ -314,7 +315,7 @@ extern "C" void c20_run_op(int op, int salt, const C20Shared *sh, char *out, siz
         wi >> t;
         d.s(t);
         std::ostringstream os;
-        ST::writef(os, "{x}|{}", 255 + salt, L);
+        ST::writef(os, salt == 0 ? "{x}|{}|{>_*20}|{<_.7}" : salt == 1 ? "{x}|{}|{>_#20}|{<_,7}" : "{x}|{}|{>20}|{<_;7}", 255 + salt, L, 77 + salt, "cd");
         std::string r = os.str();
         d.raw(r.data(), r.size());
         break;
